@@ -15,7 +15,9 @@ import (
 	"fmt"
 	"net"
 	"net/netip"
+	"runtime"
 	"strings"
+	"sync"
 	"testing"
 	"time"
 
@@ -30,6 +32,7 @@ import (
 	"mycoverif/ident"
 	"mycoverif/node"
 	"mycoverif/simnet"
+	"mycoverif/simsync"
 )
 
 // Specification constants from the statement / user-visible behaviour.
@@ -133,7 +136,7 @@ func run(e *core.Env) {
 		}()
 		cfg = config.MakeTestConfig(st)
 	}()
-	inst := &node.Inst{Ver: "sim", Cfg: cfg, ID: id}
+	inst := yieldingInst{&node.Inst{Ver: "sim", Cfg: cfg, ID: id}}
 	mem := storage.NewMemStorage()
 	pc := simnet.NewPacketConn()
 	srv, err := dns.New(inst, pc, mem)
@@ -142,6 +145,31 @@ func run(e *core.Env) {
 	}
 	alerts := mgr.NewAlertMgr(nil)
 	srv.Manager().SetWorkerErrorMgr(alerts)
+	// api/dns is compiled against the yielding lock and atomic shims: in half of the runs a seeded
+	// coin hands the processor to another runnable goroutine at its lock and atomic operations,
+	// so that queries that arrive together are answered side by side - also the very first ones.
+	if every := []int{0, 0, 1, 2, 3}[tp.Intn(5)]; every > 0 {
+		ys := tp.Uint64() | 1
+		var ymu sync.Mutex
+		simsync.Blocking = true
+		simsync.Yield = func(op string) {
+			ymu.Lock()
+			ys += 0x9e3779b97f4a7c15
+			z := ys
+			z = (z ^ (z >> 30)) * 0xbf58476d1ce4e5b9
+			z = (z ^ (z >> 27)) * 0x94d049bb133111eb
+			z ^= z >> 31
+			ymu.Unlock()
+			if z%uint64(every) == 0 {
+				runtime.Gosched()
+			}
+		}
+		e.Cleanup(func() {
+			simsync.Yield = nil
+			simsync.Blocking = false
+		})
+		e.Fault("task_switch")
+	}
 	if err := srv.Start(); err != nil {
 		e.Infra("start: %v", err)
 	}
@@ -259,7 +287,27 @@ func run(e *core.Env) {
 	nOps := 10 + tp.Intn(60)
 	for op := 0; op < nOps; op++ {
 		e.Step()
-		switch tp.Pick(8, 3, 2, 3, 1, 1) {
+		switch tp.Pick(8, 3, 2, 3, 1, 1, 2) {
+		case 6: // the adversary releases several held datagrams in the same instant: the server
+			// answers each on a goroutine of its own (and the processor changes hands between
+			// them at lock and atomic operations of api/dns, see the hook above). No mapping
+			// changes in between, so every one of them has the answer of this moment.
+			if len(queue) < 2 {
+				continue
+			}
+			k := 2 + tp.Intn(min(3, len(queue)-1))
+			for i := 0; i < k; i++ {
+				expect(queueMeta[i])
+				outstanding[queueMeta[i].id] = queueMeta[i]
+			}
+			for i := 0; i < k; i++ {
+				pc.Feed(queue[i])
+			}
+			queue, queueMeta = queue[k:], queueMeta[k:]
+			simnet.Wait()
+			checkReplies()
+			e.Fault("burst")
+			e.Probe("queries_answered_side_by_side")
 		case 0: // build a query datagram; the adversary may hold it
 			l := labels[tp.Intn(len(labels))]
 			name := l + ".myco."
@@ -434,6 +482,17 @@ func run(e *core.Env) {
 	}
 	e.Probe("empty_question_presented")
 	e.Sample("resolve=%d friends=%d mappings=%d ops=%d", len(mo.resolve), len(mo.friends), len(mo.mappings), nOps)
+}
+
+// yieldingInst is the instance the server sees: a call into it is a point at which the
+// processor may change hands, like a lock operation of the server's own package.
+type yieldingInst struct{ *node.Inst }
+
+func (y yieldingInst) Config() *config.Config {
+	if h := simsync.Yield; h != nil {
+		h("call")
+	}
+	return y.Inst.Config()
 }
 
 func TestCheck(t *testing.T) {
